@@ -12,7 +12,7 @@ from roptvc.driver import Scenario
 LEVEL = "other"
 EXPLANATION = (
     "Exception-flow contract of the real step code (DefaultOptimizerStep, DefaultEvaluatorStep, EnsembleOptimizer.start/_optimizer_callback/_run_evaluations/"
-    "_check_stopping_criteria, Plan) against a non-deterministic environment whose every behaviour is explored: the algorithm issues 0..2 requests (optionally asking for "
+    "_check_stopping_criteria, Plan) against a non-deterministic environment whose every behaviour is explored: the algorithm issues 0..2 (thorough tier: 3) requests (optionally asking for "
     "gradients), every ensemble evaluation returns results, returns results without functions, aborts with TOO_FEW_REALIZATIONS (as filters/estimators do) or with a user abort, or "
     "raises a user exception; a handler or observer raises a user abort at any emitted event; max_functions is absent or 1. On every path the step is shown to return the exit code "
     "given by an executable reading of the documentation (contracts/stepflow.expected), never to let an internal exception or an abort escape, never to swallow the evaluator's "
@@ -21,7 +21,7 @@ EXPLANATION = (
     "UnboundLocalError from filters, estimators, ConstraintInfo) are obligations of C04, C01/C02 and C13."
 )
 ASSUMPTIONS = [
-    "environment bounded: at most 2 requests per run, one aborting receiver per run; the optimization algorithm propagates callback exceptions unchanged (SciPy library contract)",
+    "environment bounded: at most 2 (thorough tier: 3) requests per run, one aborting receiver per run; the optimization algorithm propagates callback exceptions unchanged (SciPy library contract)",
     "EnsembleEvaluator.calculate replaced by its raises-contract (results / results without functions / OptimizationAborted / user exception)",
     "single-threaded",
 ]
@@ -152,7 +152,7 @@ MANIFEST = {
     "category": "other",
     "text": "Exhaustive path exploration of the real step/optimizer/plan code against a bounded non-deterministic environment (every failure kind at every evaluation, every abort point, "
             "max_functions), each path checked against an executable reading of the documented exit-code semantics; modular (EnsembleEvaluator.calculate and the algorithm by contract). "
-            "It is a contract check over all paths of the real code for that environment, not an unbounded proof: runs are bounded to 2 requests.",
-    "note": "bounded environment (<= 2 requests, one abort per run); SciPy assumed to propagate callback exceptions; callee raises-clauses owned by C01/C02/C04/C13",
+            "It is a contract check over all paths of the real code for that environment, not an unbounded proof: runs are bounded to 2 requests (3 in the thorough tier).",
+    "note": "bounded environment (<= 2 requests, 3 in the thorough tier; one abort per run); SciPy assumed to propagate callback exceptions; callee raises-clauses owned by C01/C02/C04/C13",
     "technique": "contract-based verification of exception flow: symbolic-execution engine enumerating all environment choices over the real source, obligations per path; bounded run-time checking as stand-in",
 }
